@@ -147,8 +147,12 @@ def op_partition(w, ev, slot):
            form=ev.get('form', 0) % 3, fault=fault is not None)
     if rec.fault_at is not None:
         w.stats['fault.F1.armed'] += 1
-    status, res = _call(lambda: list(slot.real.partition(
-        mkarg(rec), axis=AXNAME[ax], remove_empty=rme, ignore_none=ign)))
+    if ev.get('pos'):
+        status, res = _call(lambda: list(slot.real.partition(
+            mkarg(rec), AXNAME[ax], rme, ign)))
+    else:
+        status, res = _call(lambda: list(slot.real.partition(
+            mkarg(rec), axis=AXNAME[ax], remove_empty=rme, ignore_none=ign)))
     if status == 'fault':
         w.stats['fault.F1.fired'] += 1
         w.expect_unchanged(slot, 'partition.parts.input_changed',
@@ -452,7 +456,13 @@ def op_merge(w, ev, slot):
             kw['sample_metadata_f'] = CB.make_mdf(fs, rs)
         other = [p.real for p in partners] if listform else partners[0].real
         before = list(other) if listform else None
-        res = real.merge(other, **kw)
+        if ev.get('pos') and len(kw) == 4:
+            # the documented positional order
+            res = real.merge(other, kw['sample'], kw['observation'],
+                             kw['sample_metadata_f'],
+                             kw['observation_metadata_f'])
+        else:
+            res = real.merge(other, **kw)
         if listform and (len(other) != len(before) or any(
                 x is not y for x, y in zip(other, before))):
             w.fail('merge.argument_changed', 'merge modified the list of '
